@@ -50,22 +50,41 @@ def verify(sd):
     return 0 if all(v for k, v in res.items() if isinstance(v, bool)) else 1
 
 def run(sd, props):
+    """Runs the checks against a scratch worktree of /repo with the patch applied (VERIF_REPO),
+    so that /repo itself is never modified while other work is going on.  With --inplace the
+    patch is applied to /repo itself (git apply) and undone straight afterwards."""
+    inplace = "--inplace" in props
+    props = [p for p in props if p != "--inplace"]
     meta = json.load(open(os.path.join(sd, "meta.json")))
     props = props or [meta["property"]]
-    rc, out = sh(["git", "-C", REPO, "status", "--porcelain"])
-    assert out.strip() == "", "/repo not clean: " + out
-    rc, out = sh(["git", "-C", REPO, "apply", os.path.join(os.path.abspath(sd), "patch.diff")])
+    if inplace:
+        target = REPO
+        rc, out = sh(["git", "-C", REPO, "status", "--porcelain"])
+        assert out.strip() == "", "/repo not clean: " + out
+    else:
+        target = tempfile.mkdtemp(prefix="seedrun-", dir="/tmp/scratch")
+        os.rmdir(target)
+        rc, out = sh(["git", "-C", REPO, "worktree", "add", "--detach", target])
+        assert rc == 0, out
+    rc, out = sh(["git", "-C", target, "apply", os.path.join(os.path.abspath(sd), "patch.diff")])
     assert rc == 0, out
     fired = {}
+    global ENV
+    env0 = ENV
+    ENV = dict(ENV, VERIF_REPO=target)
     try:
         for p in props:
             rc, out = sh([os.path.join(VERIF, "check"), p, "quick"], cwd=VERIF, timeout=1800)
             v = [l for l in out.splitlines() if l.startswith("VIOLATION")]
             fired[p] = dict(exit=rc, violation=v[0] if v else None,
-                            summary=[l for l in out.splitlines() if "quick:" in l or l.strip().startswith(("broken:", "failing input:"))][:6])
+                            summary=[l[:300] for l in out.splitlines() if "quick:" in l or l.strip().startswith(("broken:", "failing input:"))][:6])
     finally:
-        sh(["git", "-C", REPO, "checkout", "--", "."])
-        sh(["git", "-C", REPO, "clean", "-fdq"])
+        ENV = env0
+        if inplace:
+            sh(["git", "-C", REPO, "checkout", "--", "."])
+            sh(["git", "-C", REPO, "clean", "-fdq"])
+        else:
+            sh(["git", "-C", REPO, "worktree", "remove", "--force", target])
     print(json.dumps(fired, indent=1))
     return 0
 
